@@ -99,6 +99,11 @@ impl FixtureDatabase {
             }
         }
 
+        // Every successful (re-)analysis can change what other files see
+        // (removed fixtures, changed imports) even when it records no
+        // definition, so invalidate the version-keyed caches once it is done.
+        self.invalidate_cycle_cache();
+
         debug!("Analysis complete for {:?}", file_path);
 
         // Periodically evict cache entries to prevent unbounded memory growth
